@@ -430,6 +430,24 @@ pub fn monitor_invocation(out : &mut Out, tr : &mut Tracker, inv : &Invocation, 
                 {
                     out.violation("C04:failure-not-reported", format!("sources {:?} are missing but the build reports success", missing), replay());
                 }
+                // exactly one error per failed rule (its command exits non-zero or leaves a declared target ungenerated
+                // when run from scratch on the current sources) and per missing leaf; rules that only depend on a
+                // failure add none
+                let failing : Vec<usize> = scope.iter().filter(|i| matches!(scratch[**i], RuleOutcome::Fails(_))).cloned().collect();
+                let expected = failing.len() + missing.len();
+                match &inv.verdict
+                {
+                    Verdict::Ok if !failing.is_empty() =>
+                    {
+                        let i = failing[0];
+                        out.violation("C04:failed-rule-not-reported", format!("rule {:?} fails when run on the current sources ({}), yet the build reports success", sc.rules[i].targets, match &scratch[i] { RuleOutcome::Fails(w) => w.clone(), _ => String::new() }), replay());
+                    },
+                    Verdict::WorkErrors(es) if es.len() != expected =>
+                    {
+                        out.violation("C04:wrong-number-of-errors", format!("{} rules fail and {} leaves are missing, but {} errors are reported: {:?}", failing.len(), missing.len(), es.len(), es), replay());
+                    },
+                    _ => {},
+                }
             }
         }
 
